@@ -25,6 +25,20 @@ pub open spec fn b2b(n: nat, x: Seq<u8>) -> Seq<u8> {
 }
 
 // ------------------------------------------------------------------------------------------------
+// RFC 9106 section 3.2 step 1: H_0
+// ------------------------------------------------------------------------------------------------
+/// H_0 = H^(64)(LE32(p) || LE32(T) || LE32(m) || LE32(t) || LE32(v) || LE32(y) || LE32(length(P)) || P ||
+///              LE32(length(S)) || S || LE32(length(K)) || K || LE32(length(X)) || X),  v = 0x13
+pub open spec fn argon2_h0_spec(p: nat, taglen: nat, m: nat, t: nat, y: nat, pwd: Seq<u8>, salt: Seq<u8>, key: Seq<u8>, ad: Seq<u8>) -> Seq<u8> {
+    b2b(
+        64,
+        le32(p) + le32(taglen) + le32(m) + le32(t) + le32(0x13) + le32(y) + le32(pwd.len()) + pwd + le32(salt.len()) + salt + le32(
+            key.len(),
+        ) + key + le32(ad.len()) + ad,
+    )
+}
+
+// ------------------------------------------------------------------------------------------------
 // RFC 9106 section 3.3: variable-length hash function H'
 // ------------------------------------------------------------------------------------------------
 /// V_i (i >= 1):  V_1 = H^64(a),  V_i = H^64(V_{i-1})
@@ -389,6 +403,14 @@ pub proof fn lemma_slice_seg(slice: int, seg: int)
     } else {
         assert(slice == 3);
     }
+}
+
+pub proof fn lemma_le32_small()
+    ensures
+        le32(0) =~= seq![0u8, 0u8, 0u8, 0u8],
+        le32(1) =~= seq![1u8, 0u8, 0u8, 0u8],
+{
+    reveal_with_fuel(nat_to_le, 5);
 }
 
 pub proof fn lemma_fblamka(x: u64, y: u64)
